@@ -22,7 +22,8 @@
      timescale) into tkhd / mvhd durations - and no operation combines incompatible quantities.
   R8 no header field of the output is narrower than the value stored in it (C13 R-CAST / R-STCO instances): a duration or
      offset truncated on write no longer equals the sum the statement demands.
-Not decided: numeric table totals, "within one tick", strict monotonicity of sync numbers.
+  R9 each sample table accounts for exactly the samples written (C01 R7 count-conservation instances).
+Not decided: "within one tick", strict monotonicity of sync numbers, chunk disjointness beyond R5.
 """
 import c04
 import c13
@@ -262,6 +263,25 @@ def run(fx, chk, tier):
         else:
             chk.bad("R8", key, o["how"], o["site"], o.get("detail"))
     chk.floor("R8", "narrowing obligations", n8, 10)
+    # ---------------- R9: every table accounts for exactly the samples written (the rule itself lives in c01_tables, owned by C01)
+    chk.rule("R9", "count conservation: each run-length table grows by exactly one sample per write_sample; a lazily created table and a back-filled vector cover exactly the samples written before (C01 R7 instances)")
+    import c01_tables
+    s1 = report.Check("C01")
+    s1.finish = lambda *a, **k: 0
+    tw = fx.impl_fn("Mp4TrackWriter", None, "write_sample")
+    n9 = 0
+    if chk.anchor("R9", "Mp4TrackWriter::write_sample", tw):
+        c01_tables.run(fx, s1, cg, tw)
+        for o in s1.obligations:
+            if not o["rule"].startswith("R7"):
+                continue
+            n9 += 1
+            key = "C01:%s|%s" % (o["rule"], o["key"])
+            if o["ok"]:
+                chk.ok("R9", key, o["how"], o["site"])
+            else:
+                chk.bad("R9", key, o["how"], o["site"], o.get("detail"))
+    chk.floor("R9", "count-conservation obligations", n9, 13)
     return chk.finish(
         "other",
         "Sizes of the %d encoders reachable from the muxer are compared with their layouts in every shape cell; ordering, who-may-write and prologue/patch pairing are dominance and call-graph rules over the muxer closure. "
